@@ -387,12 +387,24 @@ pub fn text_outcome(rec: &J) -> Verdict {
     };
     // the entry point the command-line tool uses (parse + standard linter in one call)
     let fmt = |ds: &[rrss::linter::Diag]| ds.iter().map(|d| format!("{}|{}|{:?}", d.line, d.issue, d.suggestions)).collect::<Vec<_>>().join("\n");
-    let cli_lint = match rrss::cli::linter::lint(&text) {
-        Ok(r) => fmt(&r.diags),
-        Err(_) => String::new(),
-    };
+    // (through a trait, so that the harness still builds if the entry point's result type changes)
+    let cli_lint = rrss::cli::linter::lint(&text).diags_or_nothing().map_or(String::new(), |ds| fmt(&ds));
     Verdict::ok_with(true, json!({"dump": dump, "lint": lint, "cli_lint": cli_lint}))
 }
+trait LintEntryResult {
+    fn diags_or_nothing(self) -> Option<Vec<rrss::linter::Diag>>;
+}
+impl<E> LintEntryResult for Result<rrss::linter::LinterResult, E> {
+    fn diags_or_nothing(self) -> Option<Vec<rrss::linter::Diag>> {
+        self.ok().map(|r| r.diags)
+    }
+}
+impl LintEntryResult for rrss::linter::LinterResult {
+    fn diags_or_nothing(self) -> Option<Vec<rrss::linter::Diag>> {
+        Some(self.diags)
+    }
+}
+
 pub fn check_dettext(rec: &J, helper: &mut Option<crate::Helper>) -> Verdict {
     let first = match catch_unwind(AssertUnwindSafe(|| text_outcome(rec).obs)) {
         Ok(o) => o,
